@@ -325,6 +325,7 @@ type vReq struct {
 	Remote   string
 	Host     string
 	RawBody  []byte
+	BodyDelay time.Duration // the body arrives that much later than the headers
 	BodyType string
 	NoTLS    bool
 }
@@ -397,6 +398,9 @@ func (w *vWorld) buildRequest(q vReq) *http.Request {
 	if body == nil && q.Method != "GET" && q.Method != "HEAD" {
 		body = strings.NewReader("") // a real client always sends a (possibly empty) body with POST
 		ctype = "application/x-www-form-urlencoded"
+	}
+	if q.BodyDelay > 0 && body != nil {
+		body = &vSlowReader{r: body, d: q.BodyDelay}
 	}
 	target := q.Path
 	if q.Form != nil && q.Method == "GET" {
@@ -871,4 +875,16 @@ func TestVerif(t *testing.T) {
 	ev := openEvents(os.Getenv("VERIF_EVENTS"))
 	defer ev.Close()
 	run(t, cases, ev)
+}
+
+// vSlowReader delivers nothing for a while, then everything (a client that sends its headers and takes its time)
+type vSlowReader struct {
+	r    io.Reader
+	d    time.Duration
+	once sync.Once
+}
+
+func (s *vSlowReader) Read(p []byte) (int, error) {
+	s.once.Do(func() { time.Sleep(s.d) })
+	return s.r.Read(p)
 }
